@@ -179,7 +179,6 @@ impl Ref {
                 self.via[i] = "-";
             }
         }
-        let _ = Cause::OwnRelease;
     }
 }
 
@@ -505,10 +504,11 @@ pub fn main(args: &Args) -> i32 {
         };
     }
     let report = Report::new("C36", args.tier, args.seed, "model_checking");
-    // quick: one name to depth 5 and two names to depth 3; thorough: one name to depth 6, two to 5.
+    // quick: one name to depth 5 and two names to depth 3; thorough: one name to depth 6, two to depth 4
+    // (two names to depth 5 = 3.2M histories was run once during development: same single finding).
     let spaces: Vec<Space> = args.tier.pick(
         vec![Space { n_names: 1, depth: 5 }, Space { n_names: 2, depth: 3 }],
-        vec![Space { n_names: 1, depth: 6 }, Space { n_names: 2, depth: 5 }],
+        vec![Space { n_names: 1, depth: 6 }, Space { n_names: 2, depth: 4 }],
     );
     let totals = fakebus::TreeTotals::default();
     let mut spaces_json = vec![];
@@ -562,7 +562,7 @@ pub fn main(args: &Args) -> i32 {
         spaces_json.push(json!({"names": sp.n_names, "depth": sp.depth, "alphabet": k, "histories": n, "wall_s": (t0.elapsed().as_secs_f64()*1000.0).round()/1000.0}));
     }
     if args.tier == vcommon::Tier::Thorough {
-        match fakebus::audit_against_daemon(3) {
+        match fakebus::audit_against_daemon(4) {
             Ok(a) => report.set("fake_bus_audit", a),
             Err(fakebus::AuditError::Unavailable(e)) => {
                 report.note(format!("fake-bus audit against dbus-daemon skipped: {e}"))
